@@ -67,11 +67,14 @@ class StructV:
 
 
 class PtrV:
-    __slots__ = ("oid", "elem")
+    """Pointer = object id. root=(RootStructType, (field, ...)) marks an interior pointer to an embedded/nested
+    struct field of the object oid (its cells live in the root type's heaps)."""
+    __slots__ = ("oid", "elem", "root")
 
-    def __init__(self, oid, elem):
+    def __init__(self, oid, elem, root=None):
         self.oid = oid
         self.elem = elem
+        self.root = root
 
 
 class IfaceV:
@@ -192,6 +195,8 @@ def flatten(v, t):
             raise Unsupported("array-backed slice escapes into merged/stored state")
         return [v.rid, v.off, v.ln, v.cap]
     if k == "ptr":
+        if getattr(v, "root", None) is not None:
+            raise Unsupported("interior pointer stored / merged")
         return [v.oid]
     if k == "iface":
         return [v.tag, v.oid]
